@@ -1,5 +1,8 @@
 SPECIFICATION TraceSpec
 CONSTANTS
+  Creations = {1}
+  MaxSet = 1000000
+  CreationRewinds = FALSE
   Threads = {1, 2, 3, 4}
   RefThreads = {1, 2, 3, 4}
   MaxId = 1048576
